@@ -632,7 +632,115 @@ func (c *irChecker) typing(fn *ir.Function) {
 				if m, ok := ins.Map.Type().Underlying().(*types.Map); ok {
 					rule(ins, "map update key/value have the map's key/element types", []ir.Value{ins.Key, ins.Value}, []types.Type{m.Key(), m.Elem()})
 				}
+			case *ir.MapLookup:
+				if m, ok := ins.X.Type().Underlying().(*types.Map); ok {
+					rule(ins, "map lookup index has the map's key type", []ir.Value{ins.Index}, []types.Type{m.Key()})
+					if ins.CommaOk {
+						if tup, ok := ins.Type().(*types.Tuple); ok && tup.Len() == 2 {
+							if !hasTP(m.Elem()) && !types.Identical(tup.At(0).Type(), m.Elem()) {
+								c.add("typing", fn, "comma-ok map lookup yields %s for element type %s: %s", tup.At(0).Type(), m.Elem(), ins)
+							}
+						} else {
+							c.add("typing", fn, "comma-ok map lookup without a 2-tuple type: %s", ins)
+						}
+					} else {
+						rule(ins, "map lookup result has the map's element type", []ir.Value{ins}, []types.Type{m.Elem()})
+					}
+				}
+			case *ir.Index:
+				if a, ok := ins.X.Type().Underlying().(*types.Array); ok {
+					rule(ins, "index result has the array's element type", []ir.Value{ins}, []types.Type{a.Elem()})
+				}
+			case *ir.MakeSlice:
+				for _, v := range []ir.Value{ins.Len, ins.Cap} {
+					if v == nil {
+						c.add("typing", fn, "MakeSlice without Len or Cap: %s", ins)
+					} else if b, ok := v.Type().Underlying().(*types.Basic); (!ok || b.Info()&types.IsInteger == 0) && !hasTP(v.Type()) {
+						c.add("typing", fn, "MakeSlice bound of non-integer type %s: %s", v.Type(), ins)
+					}
+				}
+				if _, ok := ins.Type().Underlying().(*types.Slice); !ok && !hasTP(ins.Type()) {
+					c.add("typing", fn, "MakeSlice of non-slice type %s", ins.Type())
+				}
+			case *ir.Slice:
+				switch xt := ins.X.Type().Underlying().(type) {
+				case *types.Slice:
+					if rt, ok := ins.Type().Underlying().(*types.Slice); !ok || !types.Identical(rt.Elem(), xt.Elem()) {
+						c.add("typing", fn, "slice of %s has type %s: %s", ins.X.Type(), ins.Type(), ins)
+					}
+				case *types.Basic:
+					if xt.Info()&types.IsString != 0 {
+						if rt, ok := ins.Type().Underlying().(*types.Basic); !ok || rt.Info()&types.IsString == 0 {
+							c.add("typing", fn, "slice of a string has type %s: %s", ins.Type(), ins)
+						}
+					}
+				case *types.Pointer:
+					if a, ok := xt.Elem().Underlying().(*types.Array); ok {
+						if rt, ok := ins.Type().Underlying().(*types.Slice); !ok || !types.Identical(rt.Elem(), a.Elem()) {
+							c.add("typing", fn, "slice of %s has type %s: %s", ins.X.Type(), ins.Type(), ins)
+						}
+					}
+				}
+				for _, v := range []ir.Value{ins.Low, ins.High, ins.Max} {
+					if v == nil {
+						continue
+					}
+					if b, ok := v.Type().Underlying().(*types.Basic); (!ok || b.Info()&types.IsInteger == 0) && !hasTP(v.Type()) {
+						c.add("typing", fn, "slice bound of non-integer type %s: %s", v.Type(), ins)
+					}
+				}
+			case *ir.Send:
+				if ch, ok := ins.Chan.Type().Underlying().(*types.Chan); ok {
+					rule(ins, "sent value has the channel's element type", []ir.Value{ins.X}, []types.Type{ch.Elem()})
+				}
+			case *ir.Extract:
+				if tup, ok := ins.Tuple.Type().(*types.Tuple); ok && ins.Index < tup.Len() {
+					rule(ins, "extracted component has the tuple component's type", []ir.Value{ins}, []types.Type{tup.At(ins.Index).Type()})
+				} else {
+					c.add("typing", fn, "extract %d of %s: %s", ins.Index, ins.Tuple.Type(), ins)
+				}
+			case *ir.MakeClosure:
+				if f, ok := ins.Fn.(*ir.Function); ok {
+					if len(f.FreeVars) != len(ins.Bindings) {
+						c.add("typing", fn, "closure with %d bindings for %d free variables: %s", len(ins.Bindings), len(f.FreeVars), ins)
+						break
+					}
+					for k, bnd := range ins.Bindings {
+						rule(ins, fmt.Sprintf("binding %d has the free variable's type", k), []ir.Value{bnd}, []types.Type{f.FreeVars[k].Type()})
+					}
+				}
+			case *ir.ChangeType:
+				// documented: named <-> underlying, two named types of the same
+				// underlying type, pointers to identical base types, and a
+				// bidirectional channel to a directed one
+				if !hasTP(ins.Type()) && !hasTP(ins.X.Type()) && !types.Identical(ins.Type().Underlying(), ins.X.Type().Underlying()) {
+					ok := false
+					if pa, oka := ins.Type().Underlying().(*types.Pointer); oka {
+						if pb, okb := ins.X.Type().Underlying().(*types.Pointer); okb && types.Identical(pa.Elem().Underlying(), pb.Elem().Underlying()) {
+							ok = true
+						}
+					}
+					if ca, oka := ins.Type().Underlying().(*types.Chan); oka {
+						if cb, okb := ins.X.Type().Underlying().(*types.Chan); okb && cb.Dir() == types.SendRecv && types.Identical(ca.Elem(), cb.Elem()) {
+							ok = true
+						}
+					}
+					if !ok {
+						c.add("typing", fn, "ChangeType between %s and %s: %s", ins.X.Type(), ins.Type(), ins)
+					}
+				}
+			case *ir.Alloc:
+				if _, ok := ins.Type().Underlying().(*types.Pointer); !ok {
+					c.add("typing", fn, "Alloc of non-pointer type %s", ins.Type())
+				}
+			case *ir.TypeAssert:
+				if _, ok := ins.X.Type().Underlying().(*types.Interface); !ok && !hasTP(ins.X.Type()) {
+					c.add("typing", fn, "TypeAssert on non-interface type %s: %s", ins.X.Type(), ins)
+				}
 			case *ir.MakeInterface:
+				if _, ok := ins.X.Type().Underlying().(*types.Interface); ok && !hasTP(ins.X.Type()) {
+					c.add("typing", fn, "MakeInterface of an interface-typed operand %s: %s", ins.X.Type(), ins)
+				}
 				if _, ok := ins.Type().Underlying().(*types.Interface); !ok && !hasTP(ins.Type()) {
 					c.add("typing", fn, "MakeInterface of non-interface type %s", ins.Type())
 				}
